@@ -418,4 +418,28 @@ func c33IsParamOf(fn *types.Func, v *types.Var) bool {
 	return false
 }
 
-var c33FixtureWant = []string{}
+var c33FixtureWant = []string{
+	"C33-G1:construct: OwnCompiler.compile -> CreateRegex",
+	"C33-G1:fn.NilFlags.compile/compileRegex arguments",
+	"C33-G1:fn.OwnCompiler.compile/re <- other",
+	"C33-G1:fn.SwapArgs.compile/compileRegex pattern",
+	"C33-G1:fn.SwapArgs.compile/compileRegex subject",
+	"C33-G2:fn.DropErr.Eval/SetMatchString",
+	"C33-G2:fn.NullErr.Eval/IndexOf",
+	"C33-G2:fn.Overwrite.Eval/SetMatchString",
+	"C33-G2s:fn.LostClose.compile/compileErr <- Close",
+	"C33-G2s:fn.NoSlotCheck.Eval/compileErr after compile",
+	"C33-G3:fn.NoNullTest.Eval/NULL Position",
+	"C33-G3:fn.NullAsZero.Eval/NULL Occurrence",
+	"C33-G3c:fn.NoGuard.Eval/IndexOf guarded",
+	"C33-G3c:fn.NoGuard.Eval/SetMatchString guarded",
+	"C33-G5:fn.FromOne.Eval/Matches.start",
+	"C33-G5:fn.PosArith.Eval/IndexOf.start",
+	"C33-G5:fn.Swapped.Eval/IndexOf position-occurrence",
+	"C33-G6:compileRegex/flag 'x'",
+	"C33-G6:compileRegex/flag string <- unvalidated",
+	"C33-G6:validate/default arm",
+	"C33-G6:validate/lets through 'n'",
+	"C33-S1:fn.NoUnwrap.Eval/SetMatchString.matchStr",
+	"C33-S1:fn.OwnCompiler.compile/SetRegexString.regexStr",
+}
